@@ -24,6 +24,9 @@ pub(crate) struct FsState { pub origin: u32, pub len: u32 }
 #[allow(dead_code)] pub(crate) fn counters_are<T: Debug + Default, const N: usize>(q: &FullSyncMove<T, N>, s: FsState) -> bool {
     unsafe { *q.head.get() == s.origin && *q.tail.get() == s.origin.wrapping_add(s.len) }
 }
+#[allow(dead_code)] pub(crate) fn head_len<T: Debug + Default, const N: usize>(q: &FullSyncMove<T, N>) -> (u32, u32) {
+    let (h, t) = unsafe { (*q.head.get(), *q.tail.get()) }; (h, t.wrapping_sub(h))
+}
 #[allow(dead_code)] pub(crate) fn locked<T: Debug + Default, const N: usize>(q: &FullSyncMove<T, N>) -> bool {
     q.concurrency_guard.load(Relaxed)
 }
